@@ -1333,7 +1333,27 @@ class Gen:
                 x = 40 + x * 60 // 100          # no mutation of views
             if x < 14:
                 op, newcols = self.insert(ti, t["cols"], None)
-                if len(t["idx"]) >= 2 and r.chance(0.15):
+                if len(t["idx"]) >= 2 and op["shape"] == "rows" and all(c in t["cols"] for c in t["idx"]) and r.chance(0.2):
+                    # "sandwich": the first and the last new row agree on the leading index columns, a row in between does not, and the
+                    # last index column alone is non-decreasing: only a look at every new row sees that the rows are out of order
+                    while len(op["rows"]) < 3:
+                        op["rows"].append(self.row(t["cols"]))
+                    m = r.below(len(op["rows"]) - 2) + 1
+                    for lead in t["idx"][:-1]:
+                        k = t["cols"].index(lead)
+                        v = self.cell(lead)
+                        w = self.cell(lead)
+                        for _ in range(8):
+                            if w != v and w[0] not in "nm":
+                                break
+                            w = self.cell(lead)
+                        for j, row in enumerate(op["rows"]):
+                            row[k] = list(w if j == m else v)
+                    k = t["cols"].index(t["idx"][-1])
+                    strs = self.kind[t["idx"][-1]] == "str"
+                    for j, row in enumerate(op["rows"]):
+                        row[k] = ["s", "a" * (j + 1)] if strs else ["i", j]
+                elif len(t["idx"]) >= 2 and r.chance(0.15):
                     # new rows that agree on the leading index columns - with None / Missing there (None == Missing, None < None raises,
                     # Missing > everything): the insert must not take them for an ordinary constant prefix
                     pat = r.choice([[["n"]], [["m"]], [["m"], ["n"]], [["n"], ["m"]], [["i", 1]]])
@@ -1589,7 +1609,9 @@ class C17(Property):
             "brings several columns; aliases (copies, views) are looked at once after every mutation; the linear history of every case is also run through "
             "runL / runLS / WFL (ops_refine) and compared with the code; inserts into indexed tables (in order / out of order / unsortable) are demanded "
             "to leave the rows in index order or to drop the index; on a tree with the insert repair the data-only side conditions OKL and the invariant "
-            "invB are evaluated along the history (ops_inv_refine, inv_reachable, where_reachable_eq_scan)")
+            "invB are evaluated along the history (ops_inv_refine, inv_reachable, where_reachable_eq_scan); `match` probes are ints and floats (1 / 1.0 / 2 / 2.0 / 10 / 12), "
+            "60 % of the match queries are followed by the same query with the number written the other way (same or another table), and after every such query the "
+            "harness itself asks the other spelling and the first one again: every answer must be the plain evaluation of its own probe, whatever was asked before in the process")
     trusted_base = [
         "Python's sorted() is modelled as 'TypeError iff two non-Missing members are incomparable, else the stable arrangement' (checked exhaustively "
         "against CPython for lists up to 5 over the value kinds); bisect_left/right as the textbook loop (same probes as CPython's C code)",
@@ -1602,8 +1624,13 @@ class C17(Property):
         "which repairs the tree under test contains is probed through the public Table API (detect_cfg: one tiny call per switch) and handed to the "
         "model as Cfg; a signature of a repaired mechanism (stale index, incomparable probe, None probe of !in, match on a mixed column) is only "
         "excused as a known finding while its probe says 'not repaired' - on a repaired tree the same observation is a violation",
-        "repaired insert: `for i in range(start+1,len(self))` with `<` per index column is modelled as tailOrd/rowOrd (le / gt / cannot = TypeError); "
+        "repaired insert, `_in_index_order(n_old)` as committed (d82f72c): boundary pair with `<` only (rowOrd), then - when every leading index column of the "
+        "new rows is constant with a first value that is neither None nor Missing (constFrom: `c.count(c[0]) == len(c)` is ==, and Missing == None) - "
+        "`all(map(is_, last, sorted(last)))` (sortedFrom: the stable sort returns the same objects in the same places iff no later cell is smaller than an "
+        "earlier one; TypeError iff two cells cannot be ordered), otherwise the row-by-row `<` loop (tailOrd); outcomes le / gt / cannot = True / False / None; "
         "a TypeError inside the re-sort after partial permutation is modelled as 'lists restored, index dropped'",
+        "`match` with a number: the pattern is f'(\\D|^){arg}(\\D|$)' of the probe of this very call, unescaped - the dot of a float probe (1.0) stands for any "
+        "character (patPrefix); equal numbers written differently (1 / 1.0) are different patterns. Bool probes and cells with newlines are outside the alphabet",
     ]
     assumptions = [
         "row_pred and keyword arguments are not combined in one call (the code ignores the keywords; the documentation does not say what is meant)",
@@ -1687,6 +1714,8 @@ class C17(Property):
         cs.append(mk("ab", two, IX(0, "a", "b"), INS([None, 1], [None, 2]), W(0, a=V(2)), W(0, b=V(1))))
         cs.append(mk("ab", two, IX(0, "a", "b"), INS(["M", 1], [None, 2]), W(0, a=V(2)), W(0, b=V(1))))
         cs.append(mk("ab", two, IX(0, "a", "b"), INS(["M", 1], ["M", 0]), W(0, a=V(2)), W(0, b=V(1)), INS(["M", 3], ["M", 4]), W(0, b=V(4))))
+        cs.append(mk("abc", [[1, 0, "p"], [1, 1, "q"]], IX(0, "a", "b"), INS([1, 2, "r"], [2, 3, "s"], [1, 4, "t"]), W(0, a=V(2)), W(0, a=V(1)), W(0, b={"d": [">=", V(3)]}),
+                     {"op": "groupby", "t": 0, "level": 1, "select": "count"}))
         # equal numbers written differently are different patterns; every query is answered from its own probe (also across tables)
         strs = [["1"], ["v1"], ["1.0"], ["11"], ["x1y0"], ["2"], ["2.0"], ["run 2"]]
         cs.append(mk("a", strs, W(0, a={"d": ["match", V(1)]}), W(0, a={"d": ["match", V(1.0)]}), W(0, a={"d": ["match", V(2.0)]}), W(0, a={"d": ["match", V(2)]}), W(0, a={"d": ["match", V(1)]})))
